@@ -15,6 +15,7 @@
 from __future__ import annotations
 
 import ast
+import re
 from typing import Any, List, Optional, Set
 
 from engine.forms import FOLDED, NONE, NONE_IF_EMPTY, FormEnv
@@ -48,6 +49,8 @@ def run(ctx: Any, prog: Program) -> None:
     ctx.rule('C07.I3', 'index maintenance: remove-old-first, guarded add, list and indexes updated together', floor=10)
     ctx.rule('C07.I4', 'worldspawn is registered, cannot be re-classed and its classname cannot be deleted', floor=4)
     ctx.rule('C07.I5', 'CopySet iterates a snapshot', floor=1)
+    ctx.rule('C07.I7', 'an Iterable parameter feeding both the entity list and the indexes is materialised before it is consumed twice', floor=1)
+    ctx.rule('C07.I8', 'the case-preserving key store is only addressed with a stored spelling (search-loop variable) or inside the no-match branch', floor=6)
     ctx.rule('C07.I6', 'replacing VMF.spawn unregisters the previous spawn from both indexes', floor=1)
 
     # ---- I1 (package-wide) -----------------------------------------------------------------------------
@@ -172,6 +175,71 @@ def run(ctx: Any, prog: Program) -> None:
                 touched.add(index_of(c.args[0]))
         ctx.check('C07.I3', has_list and touched == set(INDEXES), vm, fn,
                   f'VMF.{name} must update self.entities and both indexes together (list op: {has_list}, indexes: {sorted(touched)})', text=f'{name}: list + both indexes')
+    # ---- I7: one-shot iterables --------------------------------------------------------------------------
+    for name, fn in vmf_methods.items():
+        params = {a.arg: ast.unparse(a.annotation) for a in fn.args.args + fn.args.kwonlyargs if a.annotation is not None}
+        for pn, ann in params.items():
+            if not re.search(r'\b(Iterable|Iterator|Generator)\b', ann):
+                continue
+            uses = []
+            rebound_line = None
+            for n in walk_no_nested(fn):
+                if isinstance(n, ast.Assign) and any(isinstance(t, ast.Name) and t.id == pn for t in n.targets) and isinstance(n.value, ast.Call) \
+                        and dotted(n.value.func) in ('list', 'tuple', 'set', 'sorted', 'frozenset') and n.value.args and dotted(n.value.args[0]) == pn:
+                    rebound_line = n.lineno if rebound_line is None else min(rebound_line, n.lineno)
+            for n in walk_no_nested(fn):
+                if isinstance(n, (ast.For, ast.comprehension)) and dotted(n.iter) == pn:
+                    uses.append(n.iter)
+                elif isinstance(n, ast.Call) and any(dotted(a) == pn for a in n.args):
+                    if isinstance(n.func, ast.Attribute) or dotted(n.func) in ('list', 'tuple', 'set', 'sorted', 'sum', 'max', 'min', 'any', 'all', 'enumerate', 'zip', 'map', 'filter'):
+                        uses.append(n)
+            consuming = [u for u in uses if rebound_line is None or u.lineno < rebound_line or (u.lineno == rebound_line)]
+            after = [u for u in uses if rebound_line is not None and u.lineno > rebound_line]
+            n_before = len([u for u in uses if rebound_line is None or u.lineno <= rebound_line])
+            if len(uses) >= 2:
+                ok = rebound_line is not None and n_before <= 1
+                ctx.check('C07.I7', ok, vm, fn, f'VMF.{name}: parameter `{pn}` ({ann}) is consumed {len(uses)} times' +
+                          ('' if ok else ' without first being materialised (list(...)): a generator is exhausted by the first use, so the later index/list update sees nothing'),
+                          func=f'VMF.{name}', text=f'{name}: {pn} materialised before multi-use')
+    # ---- I8: key-store addressing ---------------------------------------------------------------------------
+    for name, fn in ent_methods.items():
+        # search loops: for K in self._keys
+        loops = [n for n in walk_no_nested(fn) if isinstance(n, ast.For) and dotted(n.iter) in ('self._keys',) and isinstance(n.target, ast.Name)]
+        loop_vars = {l.target.id for l in loops}
+        for n in walk_no_nested(fn):
+            key_expr = None
+            if isinstance(n, ast.Subscript) and dotted(n.value) == 'self._keys':
+                key_expr = n.slice
+            elif isinstance(n, ast.Call) and isinstance(n.func, ast.Attribute) and dotted(n.func.value) == 'self._keys' and n.func.attr in ('get', 'pop', 'setdefault') and n.args:
+                key_expr = n.args[0]
+            if key_expr is None:
+                continue
+            kname = dotted(key_expr)
+            ok = False
+            why = ''
+            if kname in loop_vars:
+                # and used inside that loop's body
+                ok = any(any(x is n for x in ast.walk(l)) for l in loops if l.target.id == kname)
+                why = 'loop variable used outside its loop'
+            if not ok:
+                # inside the else: of a search loop (no stored spelling matched)
+                for l in loops:
+                    if any(x is n for s2 in l.orelse for x in ast.walk(s2)):
+                        ok = True
+            if not ok and kname is not None:
+                # after a search loop that leaves `kname` bound to a stored spelling on both exits
+                for l in loops:
+                    if n.lineno > (l.end_lineno or l.lineno):
+                        in_body = any(isinstance(x, ast.Assign) and any(dotted(t) == kname for t in x.targets) and dotted(x.value) == l.target.id for s2 in l.body for x in ast.walk(s2))
+                        in_else = any(isinstance(x, ast.Assign) and any(isinstance(t, ast.Subscript) and dotted(t.value) == 'self._keys' and dotted(t.slice) == kname for t in x.targets)
+                                      for s2 in l.orelse for x in ast.walk(s2))
+                        if in_body and in_else:
+                            ok = True
+            if not ok:
+                why = why or 'the key expression is the caller\'s spelling (or a constant), not a spelling known to be stored'
+            ctx.check('C07.I8', ok, vm, n, f'Entity.{name}: `{ast.unparse(n)[:60]}` addresses the case-preserving key store with `{ast.unparse(key_expr)}`: {why or "stored spelling"}; '
+                      'a key stored as "TargetName" is missed, so the previous value used to maintain the indexes is wrong', func=f'Entity.{name}',
+                      text=f'{name}: _keys access with {ast.unparse(key_expr)[:30]}')
     # ---- I4 --------------------------------------------------------------------------------------------
     init = vmf_methods['__init__']
     src = [ast.unparse(s) for s in walk_no_nested(init) if isinstance(s, (ast.Assign, ast.Expr))]
@@ -227,6 +295,8 @@ def run(ctx: Any, prog: Program) -> None:
 
 
 MUTANTS = [
+    {'id': 'add_ents_generator', 'file': 'vmf.py', 'find': "        ents = list(ents)\n        self.entities.extend(ents)", 'replace': "        self.entities.extend(ents)", 'expect': 'C07.I7'},
+    {'id': 'orig_val_hoisted', 'file': 'vmf.py', 'find': "        key_fold = key.casefold()\n        for k in self._keys:\n            if k.casefold() == key_fold:\n                # Check case-insensitively for this key first\n                orig_val = self._keys.get(k)", 'replace': "        key_fold = key.casefold()\n        orig_val = self._keys.get(key)\n        for k in self._keys:\n            if k.casefold() == key_fold:\n                # Check case-insensitively for this key first", 'expect': 'C07.I8'},
     {'id': 'add_ent_unfolded', 'file': 'vmf.py', 'find': "        self.by_class[item['classname', ''].casefold()].add(item)", 'replace': "        self.by_class[item['classname', '']].add(item)", 'expect': 'C07.I1'},
     {'id': 'setitem_target_unfolded', 'file': 'vmf.py', 'find': "                self.map.by_target[str_val.casefold() or None].add(self)", 'replace': "                self.map.by_target[str_val or None].add(self)", 'expect': 'C07.I1'},
     {'id': 'setitem_target_empty_not_none', 'file': 'vmf.py', 'find': "                self.map.by_target[str_val.casefold() or None].add(self)", 'replace': "                self.map.by_target[str_val.casefold()].add(self)", 'expect': 'C07.I1'},
